@@ -507,7 +507,13 @@ func AttributionViols(n int, zero ...int) (viols []mc.Viol, cases int) {
 	vs := w.ValSet()
 	view := &lib.View{NetworkId: NetworkID, ChainId: ChainID, Height: ChainHeight, RootHeight: 2, Round: 0, Phase: lib.Phase_PROPOSE_VOTE}
 	mkErr := ""
-	mk := func(salt int, signers []int) *lib.QuorumCertificate {
+	mk := func(salt int, signers []int) (out *lib.QuorumCertificate) {
+		defer func() {
+			if r := recover(); r != nil {
+				// the multi-key has fewer positions than the member list and indexes out of range
+				mkErr, out = fmt.Sprintf("building a certificate over the member list panics: %v", r), nil
+			}
+		}()
 		blk, res := MakeBlock(0, 2, 0, salt)
 		h, _ := new(lib.Block).BytesToBlockHash(blk)
 		qc := &lib.QuorumCertificate{Header: view.Copy(), BlockHash: h, ResultsHash: res.Hash(), ProposerKey: w.Nodes[0].Key.PublicKey().Bytes()}
